@@ -31,7 +31,7 @@ def run_one(mid, patch, props, runs, workers):
         os.makedirs(s + "/out", exist_ok=True)
         env = dict(os.environ, TVSIM_REPO=s + "/repo", TVSIM_OUT=s + "/out", TVSIM_WORKERS=str(workers))
         for prop in props:
-            cmd = [os.path.join(HERE, "check"), prop, "--no-min"]
+            cmd = [os.path.join(HERE, "check"), prop] + ([] if os.environ.get("SENS_MINIMISE") else ["--no-min"])
             if runs:
                 cmd += ["--runs", str(runs)]
             r = subprocess.run(cmd, env=env, capture_output=True, text=True, timeout=1800)
@@ -39,6 +39,16 @@ def run_one(mid, patch, props, runs, workers):
             clauses = sorted({l.split("clause=")[1].split()[0] for l in r.stdout.splitlines() if "clause=" in l})
             res[prop] = {"exit": r.returncode, "violations": len(viol), "clauses": clauses,
                          "tail": r.stdout.strip().splitlines()[-1][:200] if r.stdout.strip() else r.stderr[-200:]}
+            if viol and r.returncode == 1:
+                # the replay file must reproduce on the changed tree and show nothing on the unchanged one
+                rp = viol[0].split("replay=")[1].strip()
+                a = subprocess.run([os.path.join(HERE, "check"), prop, "--replay", rp], env=env, capture_output=True, text=True)
+                env0 = dict(os.environ, TVSIM_OUT=s + "/out")
+                env0.pop("TVSIM_REPO", None)
+                b = subprocess.run([os.path.join(HERE, "check"), prop, "--replay", rp], env=env0, capture_output=True, text=True)
+                res[prop]["replay_on_changed_tree_exit"] = a.returncode
+                res[prop]["replay_same_digest"] = "digest=" in a.stdout and "differs" not in a.stdout
+                res[prop]["replay_on_unchanged_tree_exit"] = b.returncode
     finally:
         shutil.rmtree(s, ignore_errors=True)
     return res
@@ -81,8 +91,11 @@ def main():
             others = [p for p in r if p not in props and isinstance(r[p], dict) and r[p]["exit"] == 1]
             broken = [p for p in r if isinstance(r[p], dict) and r[p]["exit"] == 2]
             status = "CAUGHT" if caught else "MISSED"
+            rep = [(r[p].get("replay_on_changed_tree_exit"), r[p].get("replay_same_digest"),
+                    r[p].get("replay_on_unchanged_tree_exit")) for p in caught]
             print(f"{mid:28s} {status:7s} expected={props} caught={caught} "
-                  f"clauses={[r[p]['clauses'] for p in caught]} also-fired={others} harness-error={broken}")
+                  f"clauses={[r[p]['clauses'] for p in caught]} replay(changed,same-digest,unchanged)={rep} "
+                  f"also-fired={others} harness-error={broken}")
             sys.stdout.flush()
     with open(os.path.join(HERE, "mutants", "last_result.json" if not a.seeded else "last_result_seeded.json"), "w") as f:
         json.dump(out, f, indent=1, sort_keys=True)
